@@ -246,6 +246,30 @@ def check_ops(ctx, model, sess, ops, props=('C02', 'C07', 'C14'), cold=True, tag
                              f'(shape {a.shape} vs {w.shape})', {'file': desc, 'op': op,
                                                                 'got_head': a.ravel()[:8].tolist(),
                                                                 'want_head': w.ravel()[:8].tolist()})
+            if 'C02' in props and got[0] == 'ok' and op[0] in ('sub', 'subp', 'tr', 'trw'):
+                # the optional keyword arguments of the read methods, away from their defaults, on in-range arguments:
+                # the same slice (decompression without worker threads; bounds relaxed to the padded extent; the grid
+                # ordinal taken as it is - on a file without holes that is the trace ordinal)
+                r = sess.r
+                variants = []
+                if op[0] == 'sub':
+                    variants = [('multithreading=False', lambda: r.read_subvolume(*op[1:7], multithreading=False)),
+                                ('access_padding=True', lambda: r.read_subvolume(*op[1:7], access_padding=True))]
+                elif op[0] == 'subp':
+                    variants = [('access_padding=True', lambda: r.read_subplane(*op[1:5], access_padding=True))]
+                elif fi.mask is None and not fi.is2d:
+                    variants = [('override_unstructured_mapping=True',
+                                 lambda: r.get_trace(*op[1:], override_unstructured_mapping=True))]
+                for vname, fn in variants:
+                    ctx.stats['keyword_variants'] += 1
+                    try:
+                        gv = fn()
+                    except Exception as e:  # noqa
+                        ctx.fail(f'in-range read {op} with {vname} raised {type(e).__name__}', {'file': desc, 'op': op, 'keyword': vname})
+                        continue
+                    if not readops.same(gv, want[1]):
+                        ctx.fail(f'read {op} with {vname} is not the corresponding slice of the decoded volume',
+                                 {'file': desc, 'op': op, 'keyword': vname})
             if 'C07' in props and got[0] == 'ok':
                 need = readops.needed_blocks(fi, op)
                 tb, outside = readops.touched_blocks(fi, log, sess.data_start)
